@@ -17,6 +17,7 @@ F2 = "dlt_iter"
 IT = []
 for nm, desc, tiers, cost in (
         ("c01_it_st_m0_g0_t2", "storage, nothing detected yet, 0 garbage, 2 tail", T, 500),
+        ("c01_it_st_m0_g1_t2", "storage, nothing detected yet, 1 garbage byte, 2 tail (added after seeded change C01-2)", T, 600),
         ("c01_it_st_m1_g0_t2", "storage, storage detected, 0 garbage, 2 tail", Q, 400),
         ("c01_it_st_m1_g1_t2", "storage, storage detected, 1 garbage, 2 tail", T, 500),
         ("c01_it_st_m1_g2_t3", "storage, storage detected, 2 garbage, 3 tail", T, 200),
